@@ -22,6 +22,7 @@ _DISTS = {
     "beta": genjax.beta,
     "gamma": genjax.gamma,
     "flip": genjax.flip,
+    "flipv": genjax.flip,
     "bernoulli": genjax.bernoulli,
     "categorical": genjax.categorical,
     "poisson": genjax.poisson,
